@@ -394,6 +394,12 @@ func (e *Engine) step(p *partition, row map[string]any, ts, seq int64) []map[str
 			if isComplete(s.states) {
 				completions = append(completions, s)
 			} else {
+				if !e.lazy && hasAccept(s.states) {
+					// Accepting but still extensible (e.g. (A B)+ after a full A B): remember it
+					// as a candidate now, because a longer attempt that later fails no longer
+					// carries the accepting state and the match would be lost.
+					completions = append(completions, s)
+				}
 				survivors = append(survivors, s)
 			}
 		}
@@ -406,6 +412,9 @@ func (e *Engine) step(p *partition, row map[string]any, ts, seq int64) []map[str
 			if isComplete(s.states) {
 				completions = append(completions, s)
 			} else {
+				if !e.lazy && hasAccept(s.states) {
+					completions = append(completions, s)
+				}
 				survivors = append(survivors, s)
 			}
 		}
